@@ -157,7 +157,8 @@ func c15Parse(m map[string]string, class string) hx.Case {
 	}
 }
 
-var c15Chars = []string{"a", "Z", "5", "_", "-", ".", ":", "/", "+", " ", "=", ",", "\x00", "\xc3", "é", "٣", "\xe9", "@", "\n"}
+// incl. the two code points outside ASCII whose lower case is an ASCII letter (Kelvin sign, dotted capital I), the long s, a fullwidth letter
+var c15Chars = []string{"a", "Z", "5", "_", "-", ".", ":", "/", "+", " ", "=", ",", "\x00", "\xc3", "é", "٣", "\xe9", "@", "\n", "\u212a", "\u0130", "\u017f", "\uff21"}
 
 func randDevice(r *hx.R, valid bool) string {
 	d := randPart(r, false) + "/" + randPart(r, false) + "=" + randPart(r, true)
